@@ -276,6 +276,12 @@ func (c *conn) Set(ctx context.Context, r *gpb.SetRequest) (*gpb.SetResponse, er
 		d.Log = append(d.Log, req)
 	}
 	if err != nil {
+		// a refusal is an effect as well (the request reached the device): pre-emption point after it
+		if after := d.After; after != nil && !d.SkipLog {
+			d.mu.Unlock()
+			after()
+			d.mu.Lock()
+		}
 		return nil, errors.FromGRPC(err)
 	}
 	st := d.State[c.target]
